@@ -1,0 +1,15 @@
+//go:build verif
+
+package eq
+
+// Contracts for package eq, checked by /verif/govc.  Comment-only file.
+
+//@ import "github.com/csgura/fp/internal/veriflaws"
+//
+//@ lemma tuple2Equiv[A1, A2 any](e1 fp.Eq[A1], e2 fp.Eq[A2], x fp.Tuple2[A1, A2], y fp.Tuple2[A1, A2], z fp.Tuple2[A1, A2])
+//@   prop C09
+//@   requires veriflaws.EqLaws(e1) && veriflaws.EqLaws(e2)
+//@   ensures Tuple2(e1, e2).Eqv(x, x)
+//@   ensures Tuple2(e1, e2).Eqv(x, y) == Tuple2(e1, e2).Eqv(y, x)
+//@   ensures Tuple2(e1, e2).Eqv(x, y) && Tuple2(e1, e2).Eqv(y, z) ==> Tuple2(e1, e2).Eqv(x, z)
+//@   ensures Tuple2(e1, e2).Eqv(x, y) == (e1.Eqv(x.I1, y.I1) && e2.Eqv(x.I2, y.I2))
